@@ -68,9 +68,9 @@ macro_rules! arm_conf_dec {
     };
 }
 
-//@ harness name=aes128_arm_enc prop=C02,C03 tier=quick bits=256 stub=1 variants=aes:armv8 est=30 desc="W: Aes128::new(key).encrypt_block(b) (autodetect -> ARMv8 arm: expand_key + AESE/AESMC rounds of the instruction model) == FIPS-197 KeyExpansion + Cipher; all 2^128 keys x 2^128 blocks; srsb, mc and the key-schedule S-box uninterpreted, shared with the oracle"
+//@ harness name=aes128_arm_enc prop=C02,C03 tier=quick bits=256 stub=1 variants=aes:armv8 est=25 desc="W: Aes128::new(key).encrypt_block(b) (autodetect -> ARMv8 arm: expand_key + AESE/AESMC rounds of the instruction model) == FIPS-197 KeyExpansion + Cipher; all 2^128 keys x 2^128 blocks; srsb, mc and the key-schedule S-box uninterpreted, shared with the oracle"
 arm_conf_enc!(aes128_arm_enc, crate::Aes128, 16);
-//@ harness name=aes128_arm_dec prop=C02,C03 tier=quick bits=256 stub=1 variants=aes:armv8 est=40 desc="W: Aes128::new(key).decrypt_block(b) (ARMv8 arm: inv_expanded_keys via AESIMC + AESD/AESIMC rounds) == FIPS-197 5.3.5 EqInvCipher; all keys and blocks"
+//@ harness name=aes128_arm_dec prop=C02,C03 tier=quick bits=256 stub=1 variants=aes:armv8 est=35 desc="W: Aes128::new(key).decrypt_block(b) (ARMv8 arm: inv_expanded_keys via AESIMC + AESD/AESIMC rounds) == FIPS-197 5.3.5 EqInvCipher; all keys and blocks"
 arm_conf_dec!(aes128_arm_dec, crate::Aes128, 16);
 //@ harness name=aes192_arm_enc prop=C02,C03 tier=quick bits=320 stub=1 variants=aes:armv8 est=30 desc="W: Aes192 encrypt (ARMv8 arm, Nk = 6 schedule, 12 rounds) == FIPS-197; all keys and blocks"
 arm_conf_enc!(aes192_arm_enc, crate::Aes192, 24);
@@ -78,18 +78,18 @@ arm_conf_enc!(aes192_arm_enc, crate::Aes192, 24);
 arm_conf_dec!(aes192_arm_dec, crate::Aes192, 24);
 //@ harness name=aes256_arm_enc prop=C02,C03 tier=quick bits=384 stub=1 variants=aes:armv8 est=35 desc="W: Aes256 encrypt (ARMv8 arm, Nk = 8 schedule with the extra SubWord, 14 rounds) == FIPS-197; all keys and blocks"
 arm_conf_enc!(aes256_arm_enc, crate::Aes256, 32);
-//@ harness name=aes256_arm_dec prop=C02,C03 tier=quick bits=384 stub=1 variants=aes:armv8 est=45 desc="W: Aes256 decrypt (ARMv8 arm) == FIPS-197 EqInvCipher; all keys and blocks"
+//@ harness name=aes256_arm_dec prop=C02,C03 tier=quick bits=384 stub=1 variants=aes:armv8 est=55 desc="W: Aes256 decrypt (ARMv8 arm) == FIPS-197 EqInvCipher; all keys and blocks"
 arm_conf_dec!(aes256_arm_dec, crate::Aes256, 32);
 
 //@ harness name=aes128enc_arm prop=C02,C12 tier=quick bits=256 stub=1 variants=aes:armv8 est=25 desc="W: Aes128Enc::new(key).encrypt_block == FIPS-197 Cipher (encrypt-only type, own constructor), ARMv8 arm; all keys and blocks"
 arm_conf_enc!(aes128enc_arm, crate::Aes128Enc, 16);
 //@ harness name=aes128dec_arm prop=C02,C12 tier=quick bits=256 stub=1 variants=aes:armv8 est=40 desc="W: Aes128Dec::new(key).decrypt_block == FIPS-197 EqInvCipher (decrypt-only type, own constructor), ARMv8 arm; all keys and blocks"
 arm_conf_dec!(aes128dec_arm, crate::Aes128Dec, 16);
-//@ harness name=aes192enc_arm prop=C02,C12 tier=quick bits=320 stub=1 variants=aes:armv8 est=25 desc="W: Aes192Enc encrypt == FIPS-197, ARMv8 arm; all keys and blocks"
+//@ harness name=aes192enc_arm prop=C02,C12 tier=quick bits=320 stub=1 variants=aes:armv8 est=30 desc="W: Aes192Enc encrypt == FIPS-197, ARMv8 arm; all keys and blocks"
 arm_conf_enc!(aes192enc_arm, crate::Aes192Enc, 24);
-//@ harness name=aes192dec_arm prop=C02,C12 tier=quick bits=320 stub=1 variants=aes:armv8 est=35 desc="W: Aes192Dec decrypt == FIPS-197 EqInvCipher, ARMv8 arm; all keys and blocks"
+//@ harness name=aes192dec_arm prop=C02,C12 tier=quick bits=320 stub=1 variants=aes:armv8 est=40 desc="W: Aes192Dec decrypt == FIPS-197 EqInvCipher, ARMv8 arm; all keys and blocks"
 arm_conf_dec!(aes192dec_arm, crate::Aes192Dec, 24);
-//@ harness name=aes256enc_arm prop=C02,C12 tier=quick bits=384 stub=1 variants=aes:armv8 est=40 desc="W: Aes256Enc encrypt == FIPS-197, ARMv8 arm; all keys and blocks"
+//@ harness name=aes256enc_arm prop=C02,C12 tier=quick bits=384 stub=1 variants=aes:armv8 est=35 desc="W: Aes256Enc encrypt == FIPS-197, ARMv8 arm; all keys and blocks"
 arm_conf_enc!(aes256enc_arm, crate::Aes256Enc, 32);
 //@ harness name=aes256dec_arm prop=C02,C12 tier=quick bits=384 stub=1 variants=aes:armv8 est=55 desc="W: Aes256Dec decrypt == FIPS-197 EqInvCipher, ARMv8 arm; all keys and blocks"
 arm_conf_dec!(aes256dec_arm, crate::Aes256Dec, 32);
